@@ -5,7 +5,7 @@ CONSTANTS Sender = {"s1", "s2"}
           QCap = 2
           MaxConn = 3
           Broken = "none"
-          NPacks = 4
+          NPacks = 3
 CONSTRAINT ConnBound
 VIEW MCView
 INVARIANTS TypeOK MutualExclusion FramesWhole FreshStart InOrderAtMostOnce HeaderRight ErrMeansNotDelivered NoLossSafe Recovers WriterErrorJustified
